@@ -170,6 +170,25 @@ mod driver {
         json!({"race_observed": n > 0, "detail": format!("{n} of {rounds} fresh keys admitted more than burst=1 request under 8 racing threads")})
     }
 
+    pub fn limiter_new(case: &Value) -> Value {
+        let config = JoinRateLimiterConfig {
+            max_joins_per_64_per_hour: u(case, "cfg.per64") as u32,
+            max_joins_per_48_per_hour: u(case, "cfg.per48") as u32,
+            max_joins_per_24_per_hour: u(case, "cfg.per24") as u32,
+            max_global_joins_per_minute: u(case, "cfg.gmax") as u32,
+            global_burst_size: u(case, "cfg.gburst") as u32,
+        };
+        let l = JoinRateLimiter::new(config);
+        fn eng<K: Eq + std::hash::Hash + Clone + ToString>(e: &Engine<K>) -> Value {
+            let g = e.global.lock().unwrap();
+            json!({"window_s": e.cfg.window.as_secs(), "window_ns": e.cfg.window.subsec_nanos(), "max": e.cfg.max_requests, "burst": e.cfg.burst_size,
+                   "global_tokens": g.tokens.to_bits(), "global_riw": g.requests_in_window, "keys": e.keyed.read().len()})
+        }
+        let c = &l.config;
+        json!({"e64": eng(&l.per_subnet_64), "e48": eng(&l.per_subnet_48), "e24": eng(&l.per_subnet_24), "eg": eng(&l.global),
+               "config": [c.max_joins_per_64_per_hour, c.max_joins_per_48_per_hour, c.max_joins_per_24_per_hour, c.max_global_joins_per_minute, c.global_burst_size]})
+    }
+
     pub fn join_step(case: &Value) -> Value {
         let v6 = case["__params"]["v6"].as_bool().unwrap_or(true);
         let config = JoinRateLimiterConfig {
@@ -232,6 +251,7 @@ fn verif_replay_entry() {
         "engine_key" => driver::engine_key(&case),
         "join_step" => driver::join_step(&case),
         "engine_key_race" => driver::engine_key_race(&case),
+        "limiter_new" => driver::limiter_new(&case),
         other => panic!("unknown driver {other}"),
     };
     println!("VERIF-OBS {}", obs);
